@@ -158,10 +158,14 @@ type callResult struct {
 	panicked interface{}
 }
 
-func call(client *core.Client) callResult {
+func call(client *core.Client, ctxs ...context.Context) callResult {
 	var r []interface{}
 	var err error
-	p, _ := h.Try(func() { r, err = client.Invoke("f", nil) })
+	ctx := context.Background()
+	if len(ctxs) > 0 {
+		ctx = ctxs[0]
+	}
+	p, _ := h.Try(func() { r, err = client.InvokeContext(ctx, "f", nil) })
 	out := callResult{err: err, panicked: p}
 	if len(r) == 1 {
 		out.res = fmt.Sprint(r[0])
@@ -172,7 +176,7 @@ func call(client *core.Client) callResult {
 func TestCheck(t *testing.T) {
 	r := h.Start(t, "C20")
 	defer r.Finish()
-	r.Meta("rule", "under virtual time the real CircuitBreaker is installed on a real core.Client in front of a scripted downstream handler. Exhaustive: every success/error/panic outcome sequence of the forwarded calls up to length 8 x threshold {0,1,2,5} x recovery regimes {effectively infinite, zero, finite with probes at recovery-1ns / recovery / recovery+1ns after the last failure, virtual gaps between calls, and forwarded calls that take 0..2.5 recovery times before they fail} x installation {IO handler only, whole plugin, plugin with mock service}; each call is compared with a reference state machine written from the property statement (consecutive-failure count kept as an interval after a recovery, so only verdicts valid for every admissible count are reported): rejected-while-closed, forwarded-while-open, wrong error identity, mock service used / not used, downstream invoked on a rejected call. Concurrent: 8 callers, histories of two-phase operations (admit, complete) recorded with a logical clock at the client boundary and checked with porcupine against the same machine (recovery infinite). distinct_nontrivial = distinct (threshold, regime, installation, outcome sequence) combinations + concurrent histories Added: forwarded calls that take 0..2.5 recovery times before they fail (the open window starts when the call fails).")
+	r.Meta("rule", "under virtual time the real CircuitBreaker is installed on a real core.Client in front of a scripted downstream handler. Exhaustive: every success/error/panic outcome sequence of the forwarded calls up to length 8 x threshold {0,1,2,5} x recovery regimes {effectively infinite, zero, finite with probes at recovery-1ns / recovery / recovery+1ns after the last failure, virtual gaps between calls, and forwarded calls that take 0..2.5 recovery times before they fail} x installation {IO handler only, whole plugin, plugin with mock service}; each call is compared with a reference state machine written from the property statement (consecutive-failure count kept as an interval after a recovery, so only verdicts valid for every admissible count are reported): rejected-while-closed, forwarded-while-open, wrong error identity, mock service used / not used, downstream invoked on a rejected call. Concurrent: 8 callers, histories of two-phase operations (admit, complete) recorded with a logical clock at the client boundary and checked with porcupine against the same machine (recovery infinite). distinct_nontrivial = distinct (threshold, regime, installation, outcome sequence) combinations + concurrent histories Added: forwarded calls that take 0..2.5 recovery times before they fail (the open window starts when the call fails); callers whose own context ends (deadline, cancellation) while or before the forwarded call runs.")
 	r.Meta("exhaustive", true)
 	r.Meta("assumptions", []string{
 		"the failure count the breaker resumes with after the recovery time is not specified by the property: the reference keeps it as an interval [0, threshold] until a success or enough failures collapse it",
@@ -181,7 +185,7 @@ func TestCheck(t *testing.T) {
 	})
 	for _, th := range []int{0, 1, 2, 5} {
 		for _, inst := range []install{ioOnly, whole, withMock} {
-			for _, regime := range []string{"infinite", "max-duration", "zero", "finite-gaps", "slow-calls"} {
+			for _, regime := range []string{"infinite", "max-duration", "zero", "finite-gaps", "slow-calls", "caller-gave-up"} {
 				th, inst, regime := th, inst, regime
 				r.Case(fmt.Sprintf("seq/threshold%d/%s/%s", th, inst, regime), func(c *h.Case) {
 					synctest.Test(t, func(t *testing.T) { seqCase(c, th, inst, regime) })
@@ -217,7 +221,20 @@ func checkCall(c *h.Case, m *ref, d *downstream, client *core.Client, t0 time.Ti
 	before := atomic.LoadInt64(&d.calls)
 	now := time.Since(t0)
 	mustReject, mustForward := m.admit(now)
-	res := call(client)
+	ctx := context.Background()
+	if dl, ok := rep["caller_deadline"].(time.Duration); ok {
+		// the caller's own deadline passes (or its context is cancelled) while the forwarded
+		// call is still running: the call's failure counts like any other
+		var cancel context.CancelFunc
+		if dl > 0 {
+			ctx, cancel = context.WithTimeout(ctx, dl)
+		} else {
+			ctx, cancel = context.WithCancel(ctx)
+			cancel()
+		}
+		defer cancel()
+	}
+	res := call(client, ctx)
 	c.R.Eval(1)
 	forwarded := atomic.LoadInt64(&d.calls) - before
 	if res.panicked != nil {
@@ -285,6 +302,8 @@ func seqCase(c *h.Case, th int, inst install, regime string) {
 		recovery = time.Duration(1<<63 - 1)
 	case "zero":
 		recovery = 0
+	case "caller-gave-up":
+		recovery = 1000 * time.Hour
 	default:
 		recovery = 10 * time.Millisecond
 	}
@@ -308,6 +327,15 @@ func seqCase(c *h.Case, th int, inst install, regime string) {
 		m := &ref{threshold: th, recovery: recovery}
 		t0 := time.Now()
 		rep := map[string]interface{}{"threshold": th, "recovery": recovery.String(), "install": inst.String(), "outcomes_of_forwarded_calls": seq, "regime": regime}
+		if regime == "caller-gave-up" {
+			// every forwarded call takes 2 ms; the callers' contexts end after 1 ms, or are
+			// cancelled before the call (every third sequence)
+			d.delay = func(n int64) time.Duration { return 2 * time.Millisecond }
+			rep["caller_deadline"] = time.Millisecond
+			if len(seq)%3 == 0 || strings.Count(seq, "P")%3 == 1 {
+				rep["caller_deadline"] = time.Duration(0)
+			}
+		}
 		sig := fmt.Sprintf("%s:threshold%d:%s", regime, th, inst)
 		// issue calls until the whole outcome sequence has been consumed or enough calls were made
 		for k := 0; k < L+th+6 && int(atomic.LoadInt64(&d.calls)) < len(seq); k++ {
